@@ -106,7 +106,9 @@ pub fn bfs(
                 if failed {
                     continue;
                 }
-                if post.len() > max_len {
+                // the raw key buffer can grow while the composition does not (a waiting sign
+                // replaced by another one): bound it as well so the graph stays finite
+                if post.len() > max_len || post.typed.chars().count() > max_len + 1 {
                     st.cut_transitions += 1;
                     continue;
                 }
